@@ -152,7 +152,7 @@ def make_instance(kind: str, ity: str, data: dict) -> Any:
                 dv = f.get_default(call_default_factory=True)
             except Exception:  # noqa: BLE001
                 dv = object()
-            if dv == v:
+            if type(dv) is type(v) and enc(dv) == enc(v):  # not `==`: False == 0 and 1 == 1.0 in Python
                 continue
         kwargs[k] = v
     return cls(**kwargs)
